@@ -12,7 +12,7 @@ from concurrent.futures import ThreadPoolExecutor
 
 import numpy as np
 
-from ..common import MachineryError, PY, VERIF, frac, repo_env, write_cfg
+from ..common import MachineryError, PY, VERIF, frac, repo_env, run_tlaps, write_cfg
 
 TOL = 1e-11
 
@@ -576,7 +576,7 @@ def check_tp(ctx, agg, rec):
 # ----------------------------------------------------------------------------------
 
 EVAL_INVS = ['PtOK', 'KvOK']
-FS_INVS = ['SpanOK', 'RangeOK', 'LoopInv']
+FS_INVS = ['SpanOK', 'RangeOK', 'LoopInv', 'AsProved']
 
 
 def run(ctx):
@@ -602,8 +602,10 @@ def run(ctx):
 
     def run_fs(item):
         name, consts, workers = item
+        # StepsAsProved: every step of the transcription is a step of the algorithm proved in FindSpanProof.tla (TLAPS);
+        # liveness only in the thorough tier
         cfg = write_cfg(ctx.scratch / ('%s.cfg' % name), consts, invariants=FS_INVS,
-                        properties=['Termination'] if ctx.thorough else [])      # liveness only in the thorough tier
+                        properties=['StepsAsProved'] + (['Termination'] if ctx.thorough else []))
         return name, ctx.tlc('FindSpanPC', cfg, workers=workers, timeout=7200)
 
     def run_tp(ids):
@@ -622,12 +624,21 @@ def run(ctx):
         cfg = write_cfg(ctx.scratch / 'fs_neg.cfg', dict(Degrees={2}, BMax=3, MaxSpans=2, NoEndCase=True), invariants=FS_INVS)
         ctx.expect_violation('FindSpanPC', cfg, invariant='SpanOK', workers=1)
 
+    def neg_fs_steps():      # without the end case the transcription is NOT the proved algorithm
+        cfg = write_cfg(ctx.scratch / 'fs_neg2.cfg', dict(Degrees={1}, BMax=2, MaxSpans=2, NoEndCase=True),
+                        properties=['StepsAsProved'])
+        ctx.expect_violation('FindSpanPC', cfg, invariant='StepsAsProved', workers=1)
+
     with ThreadPoolExecutor(4) as ex:
+        tl = ex.submit(run_tlaps, ctx, 'FindSpanProof',
+                       'pyx_findspan for ALL knot vectors: inductive loop invariant, result is the unique non-empty span, '
+                       'bracket shrinks in every iteration')
         futs = [ex.submit(run_eval, it) for it in reversed(ecfgs)]
         futs += [ex.submit(run_tp, ids) for ids in tpsets]
         futs += [ex.submit(run_fs, it) for it in fcfgs]
-        negs = [ex.submit(neg_eval), ex.submit(neg_fs)]
+        negs = [ex.submit(neg_eval), ex.submit(neg_fs), ex.submit(neg_fs_steps)]
         results = [f.result() for f in futs]
+        tl.result()
         for f in negs:
             f.result()
 
